@@ -109,6 +109,13 @@ pub fn run(ctx: &RunCtx, caps: bool) -> Outcome {
             return o;
         }
     }
+    {
+        let lp = DiffRef { only_pos0: true, ..prop(caps) };
+        let long: Vec<String> = vec!["a".repeat(26), "a".repeat(30) + "b", "a".repeat(22) + "c", "ab".repeat(13), "aaac".to_string(), "abc".to_string()];
+        if !stage(ctx, &mut o, &lp, "loops around committing constructs x long texts (offset 0)", &gen::loop_commit_products(), &long) {
+            return o;
+        }
+    }
     // the F1 class is not explored against the reference (known finding), but where the Perl rule and
     // the VM's own rule for an empty iteration agree the answer is undisputed: compare there, for
     // patterns whose nullable loops are all interpreted by the VM
